@@ -239,14 +239,16 @@ func checkC09(c *Ctx) {
 				}
 				// compilation has an order of magnitude more instrumented points than a render (and its
 				// scanner threads add a yield point per token): thinner yields at bound 2 in the quick tier.
-				if !c.Thorough() {
-					nCompile := 0
-					for _, n := range names {
-						if strings.HasPrefix(n, "compile ") {
-							nCompile++
-						}
+				nCompile := 0
+				for _, n := range names {
+					if strings.HasPrefix(n, "compile ") {
+						nCompile++
 					}
+				}
+				if !c.Thorough() {
 					mod = []int{32, 48, 96}[nCompile]
+				} else if nCompile > 0 {
+					mod = []int{12, 96, 192, 192}[nCompile]
 				}
 				cs := c09case{Ops: names, Cold: true}
 				if !c.Instr() {
@@ -303,7 +305,7 @@ func checkC09(c *Ctx) {
 				}
 				if pass == 1 {
 					mod1, cap1 := 4, int64(300000)
-					if c.Thorough() {
+					if c.Thorough() && nCompile == 0 {
 						mod1, cap1 = 1, 2000000 // every instrumented point is a yield point
 					}
 					st1 := exploreSharded(vrt.Options{Fuel: 50000000, YieldTick: true, YieldMod: mod1}, 1, cap1, setup, body, checkOut, shard, nshards)
